@@ -96,3 +96,36 @@ Example C16_example :
   let es := [mkE 5 0 10 4; mkE 9 10 3 1; mkE 20 0 50 0; mkE 100 13 8 2]%N in
   runs_ok es /\ find_tile 1 es 7 = Ok (Some (mkE 5 0 10 4)) /\ find_tile 1 es 50 = Ok (Some (mkE 20 0 50 0)) /\ find_tile 1 es 10 = Ok None.
 Proof. cbn. repeat split; try lia; vm_compute; reflexivity. Qed.
+
+(* ---- directory trees of any depth (nested leaves), within the reader's depth budget ---- *)
+From VT Require Import Proofs.PMTreeProofs.
+Theorem C16_multi_level_lookup : forall av leaf d dir flat, stored d leaf dir flat -> runs_ok flat ->
+  forall e t, In e flat -> (e_id e <= t < e_id e + e_run e)%N ->
+  forall extra, pm_lookup av (S d + extra) leaf dir t = Ok (Some e).
+Proof. exact multi_level_lookup. Qed.
+Print Assumptions C16_multi_level_lookup.
+
+Theorem C16_lookup_returns_tile_entries : forall av leaf fuel dir t e,
+  pm_lookup av fuel leaf dir t = Ok (Some e) -> (0 < e_len e /\ 0 < e_run e)%N.
+Proof. exact multi_level_lookup_sound. Qed.
+Print Assumptions C16_lookup_returns_tile_entries.
+
+(* a three-level tree: root -> leaf at 100 -> leaves at 200 and 300 -> tile entries *)
+Example C16_three_levels :
+  let e1 := mkE 5 0 3 2 in let e2 := mkE 9 3 4 1 in let e3 := mkE 20 7 1 1 in
+  (
+  let leaf := fun o (_ : N) => if o =? 100 then Ok [mkE 5 200 10 0; mkE 20 300 10 0]
+                               else if o =? 200 then Ok [e1; e2] else if o =? 300 then Ok [e3] else Err in
+  stored 2 leaf [mkE 5 100 10 0] [e1; e2; e3] /\
+  pm_lookup 1 3 leaf [mkE 5 100 10 0] 6 = Ok (Some e1) /\ pm_lookup 1 3 leaf [mkE 5 100 10 0] 20 = Ok (Some e3) /\
+  pm_lookup 1 3 leaf [mkE 5 100 10 0] 7 = Ok None)%N.
+Proof.
+  cbv zeta. split; [|repeat split; reflexivity].
+  right. exists [(([mkE 5 0 3 2; mkE 9 3 4 1; mkE 20 7 1 1], (100%N, 10%N)), [mkE 5 200 10 0; mkE 20 300 10 0])].
+  split; [reflexivity|]. split; [reflexivity|]. constructor; [|constructor].
+  split; [split; [discriminate | reflexivity]|]. split; [reflexivity|]. cbn [fst snd].
+  right. exists [(([mkE 5 0 3 2; mkE 9 3 4 1], (200%N, 10%N)), [mkE 5 0 3 2; mkE 9 3 4 1]); (([mkE 20 7 1 1], (300%N, 10%N)), [mkE 20 7 1 1])].
+  split; [reflexivity|]. split; [reflexivity|].
+  constructor; [|constructor; [|constructor]]; (split; [split; [discriminate | reflexivity]|]); (split; [reflexivity|]); left; (split; [reflexivity|]);
+    repeat constructor.
+Qed.
